@@ -12,9 +12,14 @@
            caller's histograms after Commit.  No model prediction here (the cut policy is not
            modelled): such cases are judged by [holds] only.
    mode 2  component cases: expandSpansBothWays / adjustForInserts / insert /
-           expandIntSpansAndBuckets / bucketIterator called directly through the export shim. *)
+           expandIntSpansAndBuckets / bucketIterator called directly through the export shim.
+   mode 3  transaction cases: several samples of mixed flavours (float, integer / float
+           histogram, integer / float custom-bucket histogram) appended to fresh series of a real
+           DB through ONE appender (Appender or AppenderV2) and ONE Commit; observed: every series
+           read back.  The model (model/HistBatch.v) predicts which samples are stored in which
+           order (batches, commit order, in-order acceptance). *)
 From Coq Require Import List ZArith Bool Uint63.
-From Verif Require Import model.HistChunk.
+From Verif Require Import model.HistChunk model.HistBatch.
 Import ListNotations.
 Open Scope Z_scope.
 
@@ -35,6 +40,10 @@ Inductive comp :=
 | CInsert (deltas : bool) (inp : list Z) (l : list ins) (n : Z) (out : option (list Z)) (* None = panic *)
 | CExpand (k : kind) (a b : list span) (ab bb : list Z) (out : option (list ins * list ins)).
 
+(* mode 3: a sample value of any flavour *)
+Inductive tval := VF (bits : Z) | VH (k : kind) (h : hist).
+Record txin := mkTxIn { ti_ser : Z; ti_t : Z; ti_v : tval }.
+
 Record case := mkCase {
   c_id : Z;
   c_mode : Z;
@@ -47,7 +56,9 @@ Record case := mkCase {
                                                    0 = error, 1 = ok and decodes to the same samples, 2 = ok but different *)
   c_reads : list (list (Z * hist));             (* mode 1: the series as read through each path *)
   c_after : list (option hist);                 (* mode 1: the caller's histograms after Commit *)
-  c_comps : list comp                           (* mode 2 *)
+  c_comps : list comp;                          (* mode 2 *)
+  c_tx : list txin;                             (* mode 3: the transaction, in append order *)
+  c_txread : list (Z * list (Z * tval))         (* mode 3: per series id, what the querier returned *)
 }.
 
 (* ---------- equality helpers ---------- *)
@@ -130,6 +141,62 @@ Definition agree_comp (c : comp) : bool :=
       end
   end.
 
+(* ---------- mode 3 ---------- *)
+Definition kind_eqb (a b : kind) : bool :=
+  match a, b with KInt, KInt | KFloat, KFloat => true | _, _ => false end.
+
+Definition stype_of (v : tval) : stype :=
+  match v with
+  | VF _ => StFloat
+  | VH KInt h => if h_schema h =? custom_schema then StCBHist else StHist
+  | VH KFloat h => if h_schema h =? custom_schema then StCBFHist else StFHist
+  end.
+
+Fixpoint number_tx (i : Z) (l : list txin) : list txs :=
+  match l with
+  | [] => []
+  | x :: r => mkTx (ti_ser x) (stype_of (ti_v x)) (ti_t x) i :: number_tx (i + 1) r
+  end.
+
+(* a read-back value against the appended one: same flavour, floats bit-exact, histograms
+   semantically equal (see sem_eq below; defined here to be usable by agree) *)
+Definition canon_eqb (k : kind) (s1 : list span) (b1 : list Z) (s2 : list span) (b2 : list Z) : bool :=
+  list_eqb (fun a b => (fst a =? fst b) && (snd a =? snd b)) (canon k s1 b1) (canon k s2 b2).
+Definition hist_sem (k : kind) (rd ap : hist) : bool :=
+  if is_stale (h_sum ap) then is_stale (h_sum rd)
+  else
+    negb (is_stale (h_sum rd)) &&
+    (h_schema rd =? h_schema ap) &&
+    ((h_zt rd =? h_zt ap) || feq (h_zt rd) (h_zt ap)) &&
+    (list_eqb Z.eqb (h_custom rd) (h_custom ap) || bounds_match (h_custom rd) (h_custom ap)) &&
+    (h_count rd =? h_count ap) && (h_zcount rd =? h_zcount ap) && (h_sum rd =? h_sum ap) &&
+    canon_eqb k (h_ps rd) (h_pb rd) (h_ps ap) (h_pb ap) &&
+    canon_eqb k (h_ns rd) (h_nb rd) (h_ns ap) (h_nb ap).
+Definition val_match (rd ap : tval) : bool :=
+  match rd, ap with
+  | VF a, VF b => a =? b
+  | VH k h, VH k' h' => kind_eqb k k' && hist_sem k h h'
+  | _, _ => false
+  end.
+
+Fixpoint match_reads (rd : list (Z * tval)) (ap : list (Z * tval)) : bool :=
+  match rd, ap with
+  | [], [] => true
+  | (t, v) :: rd', (t', v') :: ap' => (t =? t') && val_match v v' && match_reads rd' ap'
+  | _, _ => false
+  end.
+
+Definition nth_tx (l : list txin) (i : Z) : option txin := nth_error l (Z.to_nat i).
+
+(* the model's prediction for series s: the stored samples, with the appended values *)
+Definition predicted (c_txl : list txin) (s : Z) : list (Z * tval) :=
+  flat_map (fun x => match nth_tx c_txl (x_id x) with Some i => [(ti_t i, ti_v i)] | None => [] end)
+           (of_series s (tx_run (number_tx 0 c_txl))).
+
+Definition agree_tx (c : case) : bool :=
+  forallb (fun x => existsb (fun r => fst r =? ti_ser x) (c_txread c)) (c_tx c) &&
+  forallb (fun r => match_reads (snd r) (predicted (c_tx c) (fst r))) (c_txread c).
+
 Definition agree (c : case) : bool :=
   if c_mode c =? 0 then
     match c_ops c with
@@ -146,6 +213,7 @@ Definition agree (c : case) : bool :=
       end
     end
   else if c_mode c =? 2 then forallb agree_comp (c_comps c)
+  else if c_mode c =? 3 then agree_tx c
   else true.
 
 (* ---------- holds: the property on the implementation's own output ---------- *)
@@ -200,8 +268,24 @@ Fixpoint all2 {A B} (f : A -> B -> bool) (l1 : list A) (l2 : list B) : bool :=
   | _, _ => false
   end.
 
+(* mode 3: per series, timestamps strictly increase in append order *)
+Fixpoint increasing (last : option Z) (l : list (Z * tval)) : bool :=
+  match l with
+  | [] => true
+  | (t, _) :: r => match last with None => true | Some m => m <? t end && increasing (Some t) r
+  end.
+Definition inputs_of (c : case) (s : Z) : list (Z * tval) :=
+  map (fun x => (ti_t x, ti_v x)) (filter (fun x => ti_ser x =? s) (c_tx c)).
+Definition holds_tx (c : case) : bool :=
+  if negb (forallb (fun x => match ti_v x with VH _ h => wf_hist h | VF _ => true end) (c_tx c)) then true
+  else if negb (forallb (fun x => increasing None (inputs_of c (ti_ser x))) (c_tx c)) then true
+  else
+    forallb (fun x => existsb (fun r => fst r =? ti_ser x) (c_txread c)) (c_tx c) &&
+    forallb (fun r => match_reads (snd r) (inputs_of c (fst r))) (c_txread c).
+
 Definition holds (c : case) : bool :=
   if c_mode c =? 2 then true
+  else if c_mode c =? 3 then holds_tx c
   else if negb (forallb (fun o => wf_hist (o_h o)) (c_ops c)) then true
   else
     let k := c_kind c in
